@@ -2,7 +2,7 @@
     history of Location operations (several locations, both state kinds)
     through the model, and judges every read against the index-free
     specification (the same abstract fact map searched linearly). *)
-From Verif Require Import Json Outcome Match PatIndex State Location SysOps Query QueryOps QuerySpec Events.
+From Verif Require Import Json Outcome Match PatIndex State Location SysOps Query QueryOps QuerySpec Events CronHooks.
 
 Definition classify (e : string) : string :=
   if String.eqb e E_disabled || String.eqb e E_denied || String.eqb e E_capacity ||
@@ -429,17 +429,70 @@ Definition failure_happened (s : state) : bool :=
 Definition facts_eqb (a b : list (string * json)) : bool :=
   list_eqb (fun x y => String.eqb (fst x) (fst y) && json_eqb (snd x) (snd y)) a b.
 
-Definition judge_reload (sy0 sy' : system) (o : json) (now : Z) : bool :=
+Definition judge_reload (sy0 sy' : system) (o : json) (now : Z) : bool * list string :=
   let name := jfS "loc" o in
   match sys_get sy0 name, sys_get sy' name with
   | Some l0, Some l1 =>
       let s0 := l_state l0 in
-      if any_expired s0 now || failure_happened s0 then false
-      else negb (facts_eqb (st_facts s0) (st_facts (l_state l1)) && facts_eqb (st_store s0) (st_store (l_state l1)))
-  | _, _ => false
+      if any_expired s0 now || failure_happened s0 then (false, [])
+      else (negb (facts_eqb (st_facts s0) (st_facts (l_state l1)) && facts_eqb (st_store s0) (st_store (l_state l1))),
+            (* D33: with the cron hooks installed a linear-state add that the hook rejects has already
+               written its record *)
+            if st_hooks s0 && negb (facts_eqb (st_facts s0) (st_store s0)) &&
+               match st_kind s0 with Linear => true | Indexed => false end then ["D33"] else [])
+  | _, _ => (false, [])
   end.
 
+(** ** Cron hooks (C15): calls the model predicts for an operation *)
+Definition json_of_call (c : ccall) : json :=
+  match c with
+  | CSched id sch => JObj [("c", JStr "sched"); ("id", JStr id); ("schedule", JStr sch)]
+  | CRemJ id => JObj [("c", JStr "rem"); ("id", JStr id)]
+  end.
+
+Definition call_of_json (j : json) : ccall :=
+  if String.eqb (jfS "c" j) "sched" then CSched (jfS "id" j) (jfS "schedule" j) else CRemJ (jfS "id" j).
+
+Definition model_calls (sy0 sy' : system) (o : json) (m : json) (now : Z) : list ccall :=
+  let name := jfS "loc" o in
+  let op := jfS "op" o in
+  let refused := String.eqb (jfS "class" m) E_disabled || String.eqb (jfS "class" m) E_denied ||
+                 String.eqb (jfS "class" m) E_capacity || String.eqb (jfS "class" m) E_noloc in
+  match sys_get sy0 name, sys_get sy' name with
+  | Some l0, Some l1 =>
+      if refused then [] else
+      if String.eqb op "addfact" || String.eqb op "addrule" then
+        if jfB "ok" m then calls_add (jfB "persistent" o) false (l_state l1) (Ok (jfS "id" m)) else []
+      else if String.eqb op "remfact" || String.eqb op "remrule" then calls_rem (l_state l0) (jfS "id" o) now
+      else if String.eqb op "clear" then calls_clear (l_state l0) now
+      else if String.eqb op "reload" then (if jfB "ok" m then calls_load (jfB "persistent" o) (l_state l1) else [])
+      else []
+  | _, _ => []
+  end.
+
+Definition same_calls (mc : list ccall) (obs : list json) : bool :=
+  list_eqb json_eqb (canon_multiset (map json_of_call mc)) (canon_multiset (map jnorm obs)).
+
+(** D28: the operations on which the hooks are known to be bypassed. *)
+Definition d28_class (s0 s1 : state) (o : json) (m : json) : bool :=
+  let op := jfS "op" o in
+  let sched0 := scheduled_rules s0 in
+  if String.eqb op "addfact" || String.eqb op "addrule" then
+    (* overwrite of a scheduled rule by something unscheduled *)
+    match alookup (jfS "id" m) sched0, alookup (jfS "id" m) (scheduled_rules s1) with
+    | Some _, None => true
+    | _, _ => false
+    end
+  else if String.eqb op "remfact" || String.eqb op "remrule" || String.eqb op "enablerule" || String.eqb op "process" then
+    (* a scheduled rule other than the named one disappeared (cascade) *)
+    existsb (fun kv => negb (String.eqb (fst kv) (jfS "id" o)) &&
+                       match alookup (fst kv) (st_facts s1) with None => true | Some _ => false end) sched0
+  else if String.eqb op "clear" || String.eqb op "reload" then
+    match st_kind s0 with Linear => true | Indexed => false end
+  else false.
+
 Record acc := mkAcc {
+  a_reg : list (string * registry);          (* C15: the cron registry per location, from the observed calls *)
   a_sys : system;
   a_k : Z;
   a_diff : option (Z * string * json);      (* first difference: op index, why, model result *)
@@ -477,7 +530,11 @@ Definition step_acc (a : acc) (o : json) : acc :=
       let try now :=
         let '(sy', m) := run_op sy0 o now in
         let amb := sys_amb sy' || op_risky sy0 o || jfB "amb" m in
-        if same_res m obs || amb then Some (sy', m, amb) else None in
+        let calls_ok := match jget "cron" o with
+                        | Some (JArr oc) => String.eqb (jfS "op" o) "process" || same_calls (model_calls sy0 sy' o m now) oc
+                        | _ => true
+                        end in
+        if (same_res m obs && calls_ok) || amb then Some (sy', m, amb) else None in
       let r := match try t with
                | Some x => Some x
                | None => if t2 =? t then None else try t2
@@ -485,7 +542,7 @@ Definition step_acc (a : acc) (o : json) : acc :=
       match r with
       | None =>
           let '(_, m) := run_op sy0 o t in
-          mkAcc (a_sys a) (a_k a) (Some (a_k a, jfS "op" o, m)) (a_spec a) (a_kf a) (a_feats a) (a_amb a)
+          mkAcc (a_reg a) (a_sys a) (a_k a) (Some (a_k a, jfS "op" o, m)) (a_spec a) (a_kf a) (a_feats a) (a_amb a)
       | Some (sy', m, amb) =>
           (* judge reads against the index-free specification *)
           let '(spec_bad, kfs) :=
@@ -495,7 +552,7 @@ Definition step_acc (a : acc) (o : json) : acc :=
             else if (String.eqb (jfS "op" o) "remfact" || String.eqb (jfS "op" o) "remrule") && negb amb && jfB "ok" m
             then judge_removal sy0 sy' o t
             else if String.eqb (jfS "op" o) "reload" && negb amb && jfB "ok" m
-            then (judge_reload sy0 sy' o t, [])
+            then judge_reload sy0 sy' o t
             else if jfB "fired" obs && jfB "ok" obs && is_mutating_op (jfS "op" o) && negb amb &&
                     negb (existsb (fun kv => any_expired (l_state (snd kv)) t) sy0)
             then (true, [])   (* the storage reported a failure and the operation reported success *)
@@ -507,11 +564,35 @@ Definition step_acc (a : acc) (o : json) : acc :=
               if jfB "amb" (spec_res t) || same_res (spec_res t) obs then (false, [])
               else if same_res (spec_res t2) obs then (false, []) else (true, kf_of sy0 o)
             else (false, []) in
-          mkAcc sy' (a_k a + 1) None
+          (* C15: the registry kept by the cron service holds exactly the stored scheduled rules *)
+          let name := jfS "loc" o in
+          let reg0 := match alookup name (a_reg a) with Some r => r | None => [] end in
+          let reg0' := if String.eqb (jfS "op" o) "reload" && negb (jfB "persistent" o) then [] else reg0 in
+          let reg1 := match jget "cron" o with
+                      | Some (JArr oc) => fold_left apply_call (map call_of_json oc) reg0'
+                      | _ => reg0'
+                      end in
+          let '(cron_bad, cron_kfs) :=
+            match jget "cron" o, sys_get sy0 name, sys_get sy' name with
+            | Some _, Some l0, Some l1 =>
+                if amb || any_expired_l l0 t || negb (registry_exact reg0 (l_state l0)) then (false, [])
+                else if registry_exact reg1 (l_state l1) then (false, [])
+                else (true, if d28_class (l_state l0) (l_state l1) o m then ["D28"] else [])
+            | _, _, _ => (false, [])
+            end in
+          let unexplained := (spec_bad && match kfs with [] => true | _ => false end) ||
+                             (cron_bad && match cron_kfs with [] => true | _ => false end) in
+          let kfs := ((if spec_bad then kfs else []) ++ (if cron_bad then cron_kfs else []))%list in
+          let spec_bad := spec_bad || cron_bad in
+          (* after a (known) divergence the registry is re-synchronised so that later operations are judged *)
+          let reg1 := if cron_bad then match sys_get sy' name with
+                                       | Some l1 => scheduled_rules (l_state l1)
+                                       | None => reg1
+                                       end else reg1 in
+          mkAcc (ainsert name reg1 (a_reg a)) sy' (a_k a + 1) None
                 (match a_spec a with
                  | Some x => Some x
-                 | None => if spec_bad && match kfs with [] => true | _ => false end
-                           then Some (a_k a, jfS "op" o) else None
+                 | None => if unexplained then Some (a_k a, jfS "op" o) else None
                  end)
                 (if spec_bad then (kfs ++ a_kf a)%list else a_kf a)
                 (feat_of_op o m :: a_feats a)
@@ -530,7 +611,7 @@ Definition init_system (locs : list json) : system :=
 
 Definition check_loc (c : json) : json :=
   let sy := init_system (jfL "locs" c) in
-  let a := fold_left step_acc (jfL "ops" c) (mkAcc sy 0 None None [] [] 0) in
+  let a := fold_left step_acc (jfL "ops" c) (mkAcc [] sy 0 None None [] [] 0) in
   let kf := dedup_str (a_kf a) in
   JObj [("ok", JBool (match a_diff a with None => true | Some _ => false end));
         ("at", match a_diff a with Some (k, _, _) => JNum k | None => JNull end);
